@@ -51,7 +51,8 @@ Definition open_nf (s : fsys) (v : view) (vi : nat) (name : str) (perm : N) (wr 
           if negb (check_permission m (if tr then N.lor om OpenWrite else om) (v_user v))
           then (s, inl (RFail EPermDenied))
           else if ex then (s, inl (RFail EFileExists))
-          else (with_heap s (upd h c (NFile (if tr then [] else d) k i m)), inr (new_handle c vi name 0%Z om))
+          else (with_heap s (upd h c (NFile (if tr then [] else d) k i (if tr then drop_privs (v_user v) m else m))),
+                inr (new_handle c vi name 0%Z om))
       | Some (NDir _ m) =>
           if ex then (s, inl (RFail EFileExists))
           else if wr || cr || tr then (s, inl (RFail EIsADirectory))
